@@ -11,3 +11,7 @@ pub fn again(x: u8) -> felt252 {
 fn unused_warning() {
     let x = 5;
 }
+
+fn macro_errors_explicit(x: u8) -> ByteArray {
+    format!("{} {}", x,  undefined_explicit)
+}
